@@ -1,3 +1,4 @@
+import Toodee.Spec.OpsSpec
 import Toodee.Spec.Cells
 import Toodee.Proofs.CellsLemmas
 /-
@@ -11,13 +12,6 @@ import Toodee.Proofs.CellsLemmas
 -/
 namespace Toodee
 variable {α : Type}
-
-/-- cell permutation "exchange cells a and b" -/
-def swapCellG (a b : Nat × Nat) : Nat × Nat → Nat × Nat := fun cr => if cr = a then b else if cr = b then a else cr
-/-- cell permutation "exchange rows r1 and r2" -/
-def swapRowsG (r1 r2 : Nat) : Nat × Nat → Nat × Nat := fun cr => (cr.1, swapIdx r1 r2 cr.2)
-/-- cell permutation "exchange columns c1 and c2" -/
-def swapColsG (c1 c2 : Nat) : Nat × Nat → Nat × Nat := fun cr => (swapIdx c1 c2 cr.1, cr.2)
 
 /-! ### helpers -/
 
